@@ -40,6 +40,9 @@ type Config struct {
 	Package         string `json:"package,omitempty"`
 	NoAPIHandler    bool   `json:"no_api_handler,omitempty"`
 	SpecFilename    string `json:"spec_filename,omitempty"` // default openapi.json
+	// customTypes.ignore in .goag.yaml: the dialect has no custom types, so the switch
+	// must not change anything
+	CustomTypesIgnore bool `json:"custom_types_ignore,omitempty"`
 }
 
 func (c Config) Pkg() string {
@@ -65,10 +68,14 @@ func (c Config) ServedSpecName() string {
 }
 
 func (c Config) GoagYAML() []byte {
+	var y []byte
 	if c.Cors {
-		return []byte("cors:\n  enable: true\n")
+		y = append(y, "cors:\n  enable: true\n"...)
 	}
-	return nil
+	if c.CustomTypesIgnore {
+		y = append(y, "customTypes:\n  ignore: true\n"...)
+	}
+	return y
 }
 
 // CLIArgs gives the command line equivalent to Generate with this config.
